@@ -52,6 +52,59 @@ pub struct CacheSpec {
 #[derive(Debug, Clone, Serialize, Deserialize)]
 pub struct Case {
     caches: Vec<CacheSpec>,
+    /// first: a leaked ('static) cache in enhance_hot_reloading mode holds a compound whose reload fails after a
+    /// successful load_owned; once that failure has happened the reloader is idle
+    #[serde(default)]
+    static_failing: bool,
+}
+
+/// Loads a manifest with `load_owned` (which tells the reloader about the manifest), then a part with `load`.
+struct Bundle;
+impl assets_manager::Compound for Bundle {
+    fn load(cache: assets_manager::AnyCache, _id: &assets_manager::SharedString) -> Result<Self, assets_manager::BoxedError> {
+        let _manifest = cache.load_owned::<Ver>("manifest")?;
+        let _part = cache.load::<Ver>("part")?;
+        Ok(Bundle)
+    }
+}
+
+/// A compound of a 'static cache whose reload fails (its part is gone) after it loaded the manifest with
+/// load_owned: the failure is not a change; once it has happened nothing runs until the next notification.
+fn static_cache_with_failing_reload(out: &mut Outcome) {
+    let before = reloader_tids();
+    let src = MemSource::new(true);
+    src.tree().put("manifest", "v", b"1".to_vec(), Variant::Buffer);
+    src.tree().put("part", "v", b"1".to_vec(), Variant::Buffer);
+    let cache: &'static AssetCache<MemSource> = Box::leak(Box::new(AssetCache::with_source(src.handle())));
+    if cache.load::<Bundle>("b").is_err() {
+        out.fail("harness", "the bundle did not load");
+        return;
+    }
+    cache.enhance_hot_reloading();
+    let Some(tid) = reloader_tids().difference(&before).next().copied() else { return };
+    src.tree().remove("part", "v");
+    src.tree().put("manifest", "v", b"2".to_vec(), Variant::Buffer);
+    src.send(&OwnedEntry::File("manifest".into(), "v".into()));
+    src.send(&OwnedEntry::File("part".into(), "v".into()));
+    // let the failing reload happen
+    std::thread::sleep(Duration::from_millis(300));
+    let Some((a, _)) = ticks_of(tid) else { return };
+    let reads_a = src.take_log().len();
+    std::thread::sleep(Duration::from_millis(400));
+    let reads_b = src.take_log().len();
+    if let Some((b, state)) = ticks_of(tid) {
+        if b - a > 2 || reads_b > 8 {
+            out.fail(
+                "busy-while-idle",
+                format!("a 'static cache (enhance_hot_reloading) holds a compound whose reload failed (it loads a manifest with load_owned, then a part that is gone): in a 400 ms window in which nothing changed its reloader thread used {} CPU ticks (10 ms each) and read the source {reads_b} times (state {state}; {reads_a} reads during the 300 ms before)", b - a),
+            );
+            return;
+        }
+    }
+    // and hot-reloading still works: the part comes back
+    src.tree().put("part", "v", b"3".to_vec(), Variant::Buffer);
+    src.send(&OwnedEntry::File("part".into(), "v".into()));
+    out.label("static-cache-with-failing-compound");
 }
 
 enum Live {
@@ -162,7 +215,7 @@ impl Prop for C15 {
     fn rule(&self) -> String {
         "cases = sequences over 1..4 caches with hot-reloading on an in-memory (custom) source, a custom source owning an event-producing thread (stopped by Disconnected from EventSender::send, joined by the source's destructor) or a real FileSystem source in a temp dir: create, load k assets (sometimes 10..24 thousand, cleared and loaded again, so that every one is registered twice), send events, call hot_reload, optionally let the source drop its EventSender, \
          then drop the cache while idle / right after hot_reload / with events still queued / right after loads; for filesystem caches optionally change files in the directory afterwards (an asset, or only a file that maps to no id). \
-         Oracle from /proc/self/task (per-thread CPU ticks and states, never wall-clock latency): while the harness idles for 400 ms every live reloader thread accrues <= 2 ticks; during the 2 s after the drops each reloader thread of a dropped cache \
+         in a third of the cases first a leaked ('static) cache in enhance_hot_reloading mode with a compound that loads a manifest with load_owned and then a part: the part disappears, the reload fails, and from then on the reloader is idle; Oracle from /proc/self/task (per-thread CPU ticks and states, never wall-clock latency): while the harness idles for 400 ms every live reloader thread accrues <= 2 ticks; during the 2 s after the drops each reloader thread of a dropped cache \
          has disappeared, or at least did not accrue >= 25 ticks while still running in the last 500 ms; after a change in a dropped filesystem cache's directory its watcher thread is gone too (thread count back to the baseline, polled for up to 10 s); dropping a cache on the feeder source finishes before the feeder got 3000 more events accepted (3 million when 2..4 extra threads flood the channel from just before the drop on). \
          non-trivial = a drop with events still queued or right after a hot_reload, or a source that dropped its sender, or a filesystem cache; distinct = different canonical JSON"
             .into()
@@ -200,12 +253,18 @@ impl Prop for C15 {
             prop_oneof![5 => Just(0u8), 1 => 10u8..25],
         )
             .prop_map(|(kind, loads, events, hot_reloads, timing, drop_sender, after_drop, flooders, bulk)| CacheSpec { kind, loads, events, hot_reloads, timing, drop_sender, after_drop, flooders: if kind == SrcKind::Feeder { flooders } else { 0 }, bulk: if kind == SrcKind::Mem { bulk } else { 0 } });
-        prop::collection::vec(spec, 1..4).prop_map(|caches| to_case(&Case { caches })).boxed()
+        (prop::collection::vec(spec, 1..4), prop::bool::weighted(0.3)).prop_map(|(caches, static_failing)| to_case(&Case { caches, static_failing })).boxed()
     }
 
     fn run(&self, case: &Value) -> Outcome {
         let c: Case = from_case(case);
         let mut out = Outcome::new();
+        if c.static_failing {
+            static_cache_with_failing_reload(&mut out);
+            if out.failed() {
+                return out;
+            }
+        }
         let baseline_notify = notify_threads();
         let mut live: Vec<(Live, Option<u32>, &CacheSpec)> = Vec::new();
         // ---- create and use
@@ -497,6 +556,6 @@ impl Prop for C15 {
     }
 
     fn required_labels(&self) -> Vec<&'static str> {
-        vec!["drop-with-queued-events / right-after-hot_reload", "source-dropped-sender", "filesystem-cache", "source-with-feeder-thread", "drop-under-notification-flood", "thousands-of-assets-registered-twice"]
+        vec!["drop-with-queued-events / right-after-hot_reload", "source-dropped-sender", "filesystem-cache", "source-with-feeder-thread", "drop-under-notification-flood", "thousands-of-assets-registered-twice", "static-cache-with-failing-compound"]
     }
 }
